@@ -207,7 +207,8 @@ func (p *Prog) CallGraph() *callgraph.Graph {
 			live := false
 			if n != nil {
 				for _, e := range n.In {
-					if InModule(e.Caller.Func) && !p.inTestFile(e.Caller.Func) {
+					// (promoted-method wrappers of an embedding struct are not callers: nothing calls them)
+					if InModule(e.Caller.Func) && !p.inTestFile(e.Caller.Func) && !(e.Caller.Func.Synthetic != "" && len(e.Caller.In) == 0) {
 						live = true
 					}
 				}
@@ -243,6 +244,17 @@ func InModule(fn *ssa.Function) bool {
 	// synthetic wrappers ($bound, $thunk, interface method wrappers) have no package: enter them, they only forward
 	// to the wrapped method, whose own package decides
 	if fn.Synthetic != "" {
+		// a promoted-method wrapper of a type declared outside the module (errors.withStack embedding error, …) is
+		// dependency code
+		if recv := fn.Signature.Recv(); recv != nil {
+			t := recv.Type()
+			if pt, ok := t.(*types.Pointer); ok {
+				t = pt.Elem()
+			}
+			if nt, ok := t.(*types.Named); ok && nt.Obj().Pkg() != nil {
+				return strings.HasPrefix(nt.Obj().Pkg().Path(), Module)
+			}
+		}
 		return true
 	}
 	return false
